@@ -4,8 +4,10 @@ import (
 	"bufio"
 	"bytes"
 	"crypto/ed25519"
+	"crypto/rsa"
 	"encoding/json"
 	"fmt"
+	"math/big"
 	"os"
 	"os/exec"
 	"path/filepath"
@@ -15,6 +17,7 @@ import (
 	"strings"
 	"sync"
 	"sync/atomic"
+	"verif/harness/testkeys"
 
 	cose "github.com/veraison/go-cose"
 
@@ -701,6 +704,50 @@ func c18child(args []string) int {
 			}
 			start.Done()
 			done.Wait()
+		}
+	}
+	// RSA keys assembled from raw components (n, e, d, p, q - as from a JWK or an HSM export) and never
+	// precomputed: the shared signer must treat the caller's key as read-only
+	for _, alg := range []cose.Algorithm{cose.AlgorithmPS256, cose.AlgorithmPS384, cose.AlgorithmPS512} {
+		src := testkeys.RSA(2048)
+		raw := &rsa.PrivateKey{PublicKey: rsa.PublicKey{N: new(big.Int).Set(src.N), E: src.E}, D: new(big.Int).Set(src.D),
+			Primes: []*big.Int{new(big.Int).Set(src.Primes[0]), new(big.Int).Set(src.Primes[1])}}
+		signer, e1 := cose.NewSigner(alg, raw)
+		verifier, e2 := cose.NewVerifier(alg, &raw.PublicKey)
+		if e1 != nil || e2 != nil {
+			rep.Mismatches = append(rep.Mismatches, json.RawMessage(`{"object":"raw-rsa-key","op":"NewSigner/NewVerifier","got":"refused","want":"ok"}`))
+			continue
+		}
+		before := mon.DeepHash(raw)
+		var start, done sync.WaitGroup
+		start.Add(1)
+		for g := 0; g < G; g++ {
+			done.Add(1)
+			go func(g int) {
+				defer done.Done()
+				start.Wait()
+				for n := 0; n < 2; n++ {
+					msg := []byte(fmt.Sprintf("raw rsa %d/%d", g, n))
+					sig, err := signer.Sign(gen.Entropy, msg)
+					if err == nil {
+						err = verifier.Verify(msg, sig)
+					}
+					signerOps.Add(1)
+					if err != nil {
+						b, _ := json.Marshal(map[string]any{"object": "raw-rsa-key", "kind": "signer", "alg": alg.String(), "op": "Sign distinct messages", "got": err.Error(), "want": "valid signature"})
+						mu.Lock()
+						if len(rep.Mismatches) < 20 {
+							rep.Mismatches = append(rep.Mismatches, b)
+						}
+						mu.Unlock()
+					}
+				}
+			}(g)
+		}
+		start.Done()
+		done.Wait()
+		if mon.DeepHash(raw) != before {
+			rep.Mismatches = append(rep.Mismatches, json.RawMessage(`{"object":"raw-rsa-key","op":"Sign","got":"caller's key object modified","want":"unchanged"}`))
 		}
 	}
 	rep.Ops, rep.Overlapped, rep.SignerOps = ops.Load(), overlapped.Load(), signerOps.Load()
